@@ -435,7 +435,23 @@ impl<'a> Walk<'a> {
         Self::sort_dir_entries_by_inode(&mut entries);
         entries
             .into_iter()
-            .filter_map(|e| Entry::from_dir_entry(&path, e).ok())
+            .filter_map(|e| {
+                // The entry type may need an lstat call (file systems that do not report it in
+                // the directory listing). If that fails, the entry is left out; say so, unless
+                // the entry has simply vanished in the meantime.
+                let name = e.file_name();
+                Entry::from_dir_entry(&path, e)
+                    .map_err(|err| {
+                        if err.kind() != io::ErrorKind::NotFound {
+                            self.log_warn(format!(
+                                "Failed to stat {}: {}",
+                                path.join(Path::from(name)).display(),
+                                err
+                            ))
+                        }
+                    })
+                    .ok()
+            })
             .for_each(|e| match e.tpe {
                 EntryType::File => files.push(e),
                 EntryType::SymLink => links.push(e),
